@@ -79,3 +79,8 @@ claim("C03", "model_checking",
       "numpy accuracy; name palettes whose sort order interleaves element kinds; quick tier uses sub-products at 3 nodes/3 branches and above (complete products in the thorough tier)",
       "explicit exploration of a transformation group on the implementation with a two-run (metamorphic) oracle",
       "DESIGN.md section 4 C03")
+claim("C05", "model_checking",
+      "Every well-posed network of the listed levels (network solution), every well-posed component circuit of the listed levels at the source frequencies, 0 and an unrelated frequency in RMS, peak and DC mode, every base circuit x source mix of the C09 alphabet at 25 instants (time domain) and every non-degenerate small RLC circuit x input shape at every sample (transient) is solved by the real code; on the library's own separately queried V, I and P: complex powers sum to zero in the stated convention, resistor power is real, non-negative and |I|^2 R, inductor/capacitor power is purely reactive with the right sign, and the reported power equals V*conj(I), half of it, V*I or v(t)*i(t) according to the mode.",
+      "numpy accuracy; powers compared on the natural scale of each solution",
+      "bounded-exhaustive enumeration on the implementation with invariants on every solution",
+      "DESIGN.md section 4 C05")
